@@ -36,7 +36,7 @@ TB_LINE = re.compile(r"^  (\S+):(\d+) in (.+)$")
 
 
 def cases(tier):
-    return 2400 if tier == "quick" else 480000
+    return 2400 if tier == "quick" else 240000
 
 
 def strategy(hazards):
